@@ -46,6 +46,7 @@ Leaves == { Tok("rect", "b", 0, FALSE, <<A(1), A(2), A(30), A(40), NoL, NoL>>),
             Tok("rect", "", 2, FALSE, <<NoL, NoL, Pc(50), Pc(25), A(4), NoL>>),
             Tok("rect", "", 0, TRUE, <<A(1), A(2), A(30), A(40), NoL, NoL>>),
             Tok("circle", "c", 4, FALSE, <<A(5), A(6), A(7)>>),
+            Tok("circle", "", 2, FALSE, <<A(5), A(6), A(7)>>),        \* under scale(2,3): reifies to two different radii
             Tok("line", "", 0, FALSE, <<A(1), A(2), Pc(100), Pc(100)>>),
             Tok("path", "", 5, FALSE, <<1>>),
             Tok("use", "", 0, FALSE, <<"a", A(10), A(20)>>),
